@@ -710,12 +710,19 @@ def rule_raw_passthrough(ctx):
                     table[et] = _eval_with(tests[0], lambda e: isinstance(e, ast.Call) and isinstance(e.func, ast.Attribute)
                                            and e.func.attr == "get" and e.args and const_str(e.args[0]) == "extension_type"
                                            or (isinstance(e, ast.Subscript) and const_str(e.slice) == "extension_type"), et)
+                # ... and for anything that is not one of the five (a missing extension_type, an invented one) it stays shut
+                for et in ("", "banana"):
+                    table[et or "<absent>"] = _eval_with(tests[0], lambda e: isinstance(e, ast.Call) and isinstance(e.func, ast.Attribute)
+                                                         and e.func.attr == "get" and e.args and const_str(e.args[0]) == "extension_type"
+                                                         or (isinstance(e, ast.Subscript) and const_str(e.slice) == "extension_type"), et)
                 want = {et: et.startswith("new-") for et in EXT_TYPES}
+                want["<absent>"] = False
+                want["banana"] = False
                 if table == want:
                     run.ok(R, c, "documented exception: STIX 2.1 section 7.3 new-object extension (extension-definition--, not a "
                            "property extension) is specification-conformant content")
                 else:
-                    wrong = sorted(et for et in EXT_TYPES if table[et] != want[et])
+                    wrong = sorted(et for et in want if table[et] != want[et])
                     run.violation(R, c, "the escape hatch that lets an unregistered type through a strict parse (its extension "
                                   "defines the new object type) also opens / no longer opens for extension_type %s: an unknown "
                                   "type with arbitrary properties passes allow_custom=False" % wrong, file=rel, line=r.lineno,
